@@ -1154,6 +1154,22 @@ static void exec_tokens (void)
 		NEEDH (h);
 		res_simple (mpq_QSset_param_EGlpNum (H[h], id, a));
 	}
+	else if (!strcmp (OP, "POISON"))
+	{
+		/* white-box: fill the unused capacity of structmap / rowmap (entries at and beyond the logical length,
+		 * which no correct call reads) with the valid internal column 0, so that an off-by-one index check does
+		 * not depend on uninitialised memory but deterministically acts on column 0 (and becomes observable) */
+		mpq_ILLlpdata *q;
+		int k;
+		NEEDH (h);
+		q = H[h]->qslp;
+		if (q->ncols > 0)
+		{
+			for (k = q->nstruct; q->structmap && k < q->structsize; k++) q->structmap[k] = 0;
+			for (k = q->nrows; q->rowmap && k < q->rowsize; k++) q->rowmap[k] = 0;
+		}
+		printf ("R POISON OK rv=0\n");
+	}
 	else if (!strcmp (OP, "MARKINT"))
 	{
 		/* white-box set-up step (what the LP/MPS readers do): mark structural j as integer */
